@@ -165,7 +165,17 @@ def hv(ctx, command, **kw):
     ctx.hv_runs.append(dict(command=command, args={k: str(v) for k, v in kw.items()}, cases=s.get("cases"), evaluations=s.get("evaluations"),
                             counters=s.get("counters"), wall_s=round(wall, 2), extra=s.get("extra")))
     ctx.evaluations += s.get("evaluations", 0)
-    ctx.nontrivial += s.get("nontrivial", 0)
+    nontrivial = s.get("nontrivial", 0)
+    if "in" in kw and os.path.exists(str(kw["in"])):
+        # distinct_nontrivial must count DISTINCT cases: TLC simulation workers can emit the same behaviour twice
+        seen = set()
+        with open(kw["in"], "rb") as fh:
+            for line in fh:
+                if line.startswith(b"<<"):
+                    seen.add(hashlib.blake2b(line, digest_size=8).digest())
+        nontrivial = min(nontrivial, len(seen))
+        ctx.extra["distinct_input_lines"] = ctx.extra.get("distinct_input_lines", 0) + len(seen)
+    ctx.nontrivial += nontrivial
     for v in s.get("violations", []):
         ctx.violations.append(v)
     for x in s.get("samples", []):
@@ -431,6 +441,8 @@ def check_C03(ctx):
     outs = [tlc(ctx, "mc/MC_AnnotHistIC.cfg" if ctx.quick else "mc/MC_AnnotHistIC3.cfg", "mc/MC_AnnotHist.tla", workers=14, timeout=1800)["out"]]
     # every kind starts with a term-less record: n/N < 1 for every linked term, so a missed link changes the value
     outs.append(tlc(ctx, "mc/MC_AnnotHistICP.cfg", "mc/MC_AnnotHist.tla", workers=14, timeout=1800)["out"])
+    for k in ("Gene", "Omim", "Orpha"):      # ontologies in which only one kind has any record
+        outs.append(tlc(ctx, f"mc/MC_AnnotHistOnly{k}.cfg", "mc/MC_AnnotHist.tla", workers=8)["out"])
     outs.append(sim_full(ctx, 60 if ctx.quick else 1500, 4 if ctx.quick else 8)["out"])
     allout = concat(ctx, outs, "c03-lines.txt")
     s = hv(ctx, "replay-core", prop="C03", **{"in": allout}, jax_every=(4 if ctx.quick else 1), concs="dense,roots0_1,random")
